@@ -299,6 +299,17 @@ def run(ctx: Ctx) -> int:
             ctx.violation("impl-counterexample", f["what"], input=f, expected=f.get("expected"), observed=f.get("observed"))
             if len(seen) >= 3:
                 break
+    elif diffs_ref and not unevaluated:
+        # The reference model (Model/SfRef.v) is the documented rule written down independently of the code: "the increment of star n
+        # is computed from the gear as enhanced by stars 1..n-1".  A gear on which the implementation's values differ from it is a
+        # concrete input on which that clause of the property fails (the implementation agrees with ITSELF by construction: its
+        # cumulative bonus is the fold of its own per-star function, so the clause cannot be judged without the rule).
+        d0 = diffs_ref[0]
+        ctx.violation("impl-counterexample",
+                      "star force on this gear differs from the documented rule (per-star increment computed on the gear as enhanced so far; "
+                      "reference model Model/SfRef.v); %d differing case(s) in this run; broken: %s" % (len(diffs_ref), "; ".join(ctx.broken)[:600]),
+                      input=d0, expected="values of Model/SfRef.v for every star 0..cap+1 (evaluate with ./check C17 --replay <this file>)",
+                      observed=d0.get("impl") if isinstance(d0, dict) else None)
     elif ctx.broken:
         kind = "correspondence" if (diffs_gen or diffs_ref) else "proof-obligation"
         ctx.violation(kind, "; ".join(ctx.broken)[:1500], input={"differences": (diffs_gen + diffs_ref)[:5]}, no_input=True)
